@@ -75,6 +75,7 @@ class Callable_:
         self.dstar = dstar              # Ty of **kwargs values or None
         self.generic = generic
         self.ret_desc = ret_desc
+        self.bad_defaults = {}      # pname -> Item: default value that is NOT a member of the annotation
 
 
 def ret_for(rng, params, style):
@@ -104,7 +105,7 @@ def ret_for(rng, params, style):
 
 def gen_callable(rng, k: int) -> Callable_:
     style = rng.randrange(2)
-    kind = rng.choice(["plain", "plain", "plain", "default", "kwonly", "star", "dstar", "method", "classmethod", "staticmethod", "init", "dataclass", "namedtuple"])
+    kind = rng.choice(["plain", "plain", "plain", "default", "kwonly", "star", "dstar", "method", "classmethod", "staticmethod", "init", "dataclass", "namedtuple", "posonly-dstar", "bad-default"])
     n = rng.randrange(1, 4)
     ptypes = [rng.choice(PARAM_TYPES) for _ in range(n)]
     pnames = [f"p{i}" for i in range(n)]
@@ -112,8 +113,16 @@ def gen_callable(rng, k: int) -> Callable_:
     ret_ann, ret_expr = ret_for(rng, params, style)
     parts = []
     meta = []
+    bad_defaults = {}
     for i, (p, t) in enumerate(params):
         has_default = False
+        if kind == "bad-default" and i == n - 1:
+            # the idiom `x: int = None`: the default lies outside the annotation; passing it explicitly is an error
+            non = [it for it in literal_items(t, rng, False, 6) if it.src in ("None", "0", "''", "'a'", "1", "()", "[]")]
+            if non:
+                has_default = True
+                bad_defaults[p] = non[0]
+                parts.append(f"{p}: {ty.render(t, style)} = {non[0].src}")
         if kind in ("default", "kwonly") and i == n - 1 or (kind == "plain" and rng.random() < 0.1 and i == n - 1):
             inh = literal_items(t, rng, True, 3)
             if inh:
@@ -131,13 +140,17 @@ def gen_callable(rng, k: int) -> Callable_:
     if kind == "star":
         star = rng.choice(PARAM_TYPES[:20])
         parts.append(f"*args: {ty.render(star, style)}")
-    if kind == "dstar":
+    if kind in ("dstar", "posonly-dstar"):
         dstar = rng.choice(PARAM_TYPES[:20])
+        if kind == "posonly-dstar":
+            parts.append("/")  # every named parameter is positional-only: its name is free to be used as a keyword
         parts.append(f"**kwargs: {ty.render(dstar, style)}")
     sig = ", ".join(parts)
-    if kind in ("plain", "default", "kwonly", "star", "dstar"):
+    if kind in ("plain", "default", "kwonly", "star", "dstar", "posonly-dstar", "bad-default"):
         lines = [f"def f{k}({sig}) -> {ret_ann}:", f"    return {ret_expr}"]
-        return Callable_(kind, f"f{k}", lines, f"f{k}", meta, ret_ann, star, dstar)
+        c = Callable_(kind, f"f{k}", lines, f"f{k}", meta, ret_ann, star, dstar)
+        c.bad_defaults = bad_defaults
+        return c
     if kind == "method":
         lines = [f"class K{k}:", f"    def m(self, {sig}) -> {ret_ann}:", f"        return {ret_expr}"]
         return Callable_(kind, f"K{k}", lines, f"K{k}().m", meta, ret_ann)
@@ -217,9 +230,11 @@ def gen_calls(rng, c: Callable_, n: int) -> list:
                 ok = False
                 break
             it = rng.choice(items)
+            if p in c.bad_defaults and rng.random() < 0.5:
+                it = c.bad_defaults[p]  # the default value passed explicitly
             verdicts.append(ty.member(it.obj, t))
             srcs.append(it.src)
-            by_kw = kwonly or (rng.random() < 0.25 and c.kind not in ("star",))
+            by_kw = kwonly or (rng.random() < 0.25 and c.kind not in ("star", "posonly-dstar"))
             if by_kw or kwargs:
                 kwargs.append(f"{p}={it.src}")
             else:
@@ -237,7 +252,10 @@ def gen_calls(rng, c: Callable_, n: int) -> list:
                     srcs.append(it.src)
             slot += 1
         if c.dstar is not None:
-            for j, kwname in enumerate(rng.sample(["zz", "yy"], rng.randrange(0, 3))):
+            names = ["zz", "yy"]
+            if c.kind == "posonly-dstar":
+                names = [c.params[0][0], "kwargs", "zz"]  # a keyword may reuse a positional-only name / the **name
+            for j, kwname in enumerate(rng.sample(names, rng.randrange(0, len(names) + 1))):
                 items = literal_items(c.dstar, rng, not (bad_slot == slot and j == 0), 4) or literal_items(c.dstar, rng, True, 4)
                 if items:
                     it = rng.choice(items)
@@ -345,7 +363,9 @@ def check_batch(ctx, callables, calls) -> None:
                     what = (f"`{src}`: an argument {'is not' if expected else 'is'} a member of its parameter type, pyanalyze reports "
                             f"{[d.short() for d in ds][:1] if ds else 'nothing'}\n{definition_of(source, src)}")
                     ctx.violation(key, what, wit)
-            if raised is None and not diagnosed:
+            # (callables whose default lies outside the annotation are ill-typed themselves — pyanalyze reports
+            # incompatible_default at the def — so what they return is not judged)
+            if raised is None and not diagnosed and desc[0] != "bad-default":
                 inferred = getattr(st.value, "inferred_value", None)
                 if inferred is not None:
                     t = ty.from_value(inferred)
